@@ -182,6 +182,10 @@ def run_scenario(job):
     pair = None
     if sc["tr"]:
         pair = [f for f in os.listdir(adir) if f.endswith(".json")][0][:-5]
+    if sc.get("stale_arch_tmp") and pair:
+        # what a run killed inside an earlier save left at the archive's staging name: longer than anything this run will write
+        with open(os.path.join(adir, pair + ".json.tmp"), "wb") as f:
+            f.write(open(os.path.join(adir, pair + ".json"), "rb").read() + b"\n" + b'    "tail of an older, longer archive": {}\n  }\n}\n' * 40)
     pre = {"A": _snap_dir(A), "B": _snap_dir(B), "home": _snap_dir(home)}
     old_bytes = pre["home"].get(os.path.join(".copia", "archive", (pair or "x") + ".json"))
     # uninterrupted traced run
@@ -210,7 +214,7 @@ def run_scenario(job):
 
     record(0, _map_calls(lines, A, B, home, uni), fin["A"], fin["B"],
            _arch_class(home, pair, old_bytes, fin_entries, uni),
-           {"A": finA, "B": finB, "ok": p.returncode in (0, 1), "runs": 0}, [p.returncode],
+           {"A": finA, "B": finB, "ok": p.returncode in (0, 1), "runs": 0, "arch": _arch_class(home, pair, None, fin_entries, uni)}, [p.returncode],
            {"raw_calls": [[x["call"], os.path.relpath(x["path"], d), x["ret"]] for x in lines if x["mut"]]})
     for k in range(1, n_mut + 1):
         for name in ("A", "B", "home"):
@@ -236,7 +240,9 @@ def run_scenario(job):
                 break
         rA, _, _ = _project(_snap_dir(A), uni)
         rB, _, _ = _project(_snap_dir(B), uni)
-        record(k, _map_calls(klines, A, B, home, uni), crashA, crashB, arch, {"A": rA, "B": rB, "ok": ok, "runs": runs}, exits)
+        # the recorded state after the completed re-run (C06 / C08: it is the tree the runs ended in, readable)
+        record(k, _map_calls(klines, A, B, home, uni), crashA, crashB, arch,
+               {"A": rA, "B": rB, "ok": ok, "runs": runs, "arch": _arch_class(home, pair, None, fin_entries, uni)}, exits)
     shutil.rmtree(d, ignore_errors=True)
     return recs
 
